@@ -105,7 +105,7 @@ class GenElab:
                 if name in used:
                     continue
                 used.add(name)
-                if name == "p" and bases and "p" in inherited and rng.random() < 0.5:
+                if name == "p" and bases and "p" in self.defined.get(bases[0], []) and rng.random() < 0.5:
                     # @Base.p.setter / .deleter / .getter: one accessor re-defined on the inherited property
                     for acc in rng.sample(["get", "set", "del"], rng.choice([1, 1, 2])):
                         m = self.member("p", acc, snap_pool=snap_pool)
